@@ -23,7 +23,7 @@ from .common import (ALT_TREE, DISCHARGED, ERROR, LOST, OUT, REFUTED, REPLAYS, R
                      VERIF, Obligation, dump, ensure_dirs)
 
 # the real code under test: /repo is installed in /venv; a scratch tree is put first on the path
-PYPATH = (REPO + os.pathsep + VERIF) if ALT_TREE else VERIF
+PYPATH = (REPO + os.pathsep + VERIF) if os.path.abspath(REPO) != '/repo' else VERIF
 
 VENV_PY = os.environ.get('VERIF_VENV_PY', '/venv/bin/python')
 
@@ -59,6 +59,10 @@ def run_pyvc(prop, tier):
     targets = [c.key for c in reg.for_prop(prop) if not c.assumed]
     assumed = [f'assumed contract: {c.target} -- {c.note}' for c in reg.for_prop(prop)
                if c.assumed]
+    # assumptions stated by individual contracts (lemmas about uninterpreted functions, opaque
+    # callables, specifications of numpy functions)
+    assumed += sorted({f'contract note ({c.qualname}): {c.note}' for c in reg.for_prop(prop)
+                       if c.note and not c.assumed})
     if not targets:
         return [], {'assumed': assumed}, None
     nproc = min(16, len(targets))
